@@ -718,15 +718,76 @@ fn valid_utf8_lines(v: &V) -> bool {
     !v.lines_have(&|b| std::str::from_utf8(b).is_err())
 }
 
+/// encoder 3 = the connection handler's private `encode_resp_into`, encoder 4 = the simulated
+/// connection's `encode_resp`, both through hook H1c (present only after the hook commit)
+#[cfg(verif_h1c)]
+fn hook_encoders(rv: &RespValue) -> Vec<(u8, Vec<u8>)> {
+    vec![
+        (3, redis_sim::production::verif_hooks::encode_reply(rv)),
+        (4, redis_sim::simulator::SimulatedConnection::verif_encode_resp(rv)),
+    ]
+}
+#[cfg(not(verif_h1c))]
+fn hook_encoders(_rv: &RespValue) -> Vec<(u8, Vec<u8>)> {
+    Vec::new()
+}
+
+fn kind_name(v: &V) -> &'static str {
+    match v {
+        V::S(_) => "simple",
+        V::E(_) => "error",
+        V::I(_) => "int",
+        V::N => "null-bulk",
+        V::B(b) if b.is_empty() => "empty-bulk",
+        V::B(_) => "bulk",
+        V::Z => "null-array",
+        V::A(a) if a.is_empty() => "empty-array",
+        V::A(_) => "array",
+    }
+}
+
+/// does this value, encoded by encoder `k`, decode back to itself (as written on the wire)?
+fn roundtrips(k: u8, v: &V) -> bool {
+    let bytes = match (k, v.to_rv()) {
+        (1, _) => RespCodec::encode(&v.to_zc()).to_vec(),
+        (2, Some(rv)) => RespParser::encode(&rv),
+        (_, Some(rv)) => match hook_encoders(&rv).into_iter().find(|e| e.0 == k) {
+            Some(e) => e.1,
+            None => return true,
+        },
+        _ => return true,
+    };
+    let o = decode_here(2, &bytes);
+    o.kind == Kind::Ok && o.consumed == bytes.len() && o.val.as_ref().map(|x| x == &lossy_v(&v.sanitized())).unwrap_or(false)
+}
+
+fn lossy_v(v: &V) -> V {
+    lossy(v)
+}
+
+/// the smallest sub-value that does not round-trip on its own: names the shape of the defect
+fn failing_shape(k: u8, v: &V) -> String {
+    if let V::A(a) = v {
+        for x in a {
+            if !roundtrips(k, x) {
+                return format!("in-array:{}", failing_shape(k, x));
+            }
+        }
+    }
+    kind_name(v).to_string()
+}
+
 fn check_roundtrip(cx: &mut Ctx, v: &V, src: &str) {
     let mut encs: Vec<(u8, Vec<u8>)> = vec![(1, RespCodec::encode(&v.to_zc()).to_vec())];
     if let Some(rv) = v.to_rv() {
         encs.push((2, RespParser::encode(&rv)));
+        encs.extend(hook_encoders(&rv));
     }
     cx.out.count(&format!("roundtrip:{}:depth={}", src, v.depth().min(4)));
     for (k, bytes) in encs {
         cx.out.op(format!("E{} {}", k, v.show()), hex(&bytes));
         cx.out.case(&format!("E{}|{}", k, v.show()), true);
+        cx.out.count(&format!("encoder:{}", k));
         for codec in [1u8, 2u8] {
             if codec == 2 && !valid_utf8_lines(v) {
                 cx.out.count("excluded:roundtrip:non-utf8-line-under-codec2");
@@ -743,18 +804,49 @@ fn check_roundtrip(cx: &mut Ctx, v: &V, src: &str) {
             }
             let good = o.text == format!("ok {} {}", wire.show(), bytes.len());
             if !good {
-                let class = if v.lines_have(&|b| find(b, b"\r\n")) {
-                    "crlf-in-line"
-                } else if v.lines_have(&|b| b.contains(&b'\r')) {
-                    "cr-in-line"
+                let sig = if k == 3 {
+                    format!("C15:roundtrip:conn-encoder:{}", failing_shape(k, v))
+                } else if k == 4 {
+                    format!("C15:roundtrip:sim-encoder:{}", failing_shape(k, v))
                 } else {
-                    "other"
+                    let class = if v.lines_have(&|b| find(b, b"\r\n")) {
+                        "crlf-in-line"
+                    } else if v.lines_have(&|b| b.contains(&b'\r')) {
+                        "cr-in-line"
+                    } else {
+                        "other"
+                    };
+                    format!("C15:roundtrip:{}:enc{}", class, k)
                 };
-                cx.out.violation(&format!("C15:roundtrip:{}:enc{}", class, k), &format!("decode{}(encode{} v) != v", codec, k),
+                cx.out.violation(&sig, &format!("decode{}(encode{} v) != v", codec, k),
                     json!({"value": v.show(), "encoder": k, "decoder": codec, "encoded": hex(&bytes), "decoded": o.line(), "source": src}));
             }
         }
     }
+}
+
+/// `encode_error_into` (protocol errors, command-parse errors) through hook H1c
+#[cfg(verif_h1c)]
+fn error_encoder(cx: &mut Ctx) {
+    let msgs: [&str; 12] = ["protocol error", "buffer overflow", "ERR wrong number of arguments for 'get' command", "WRONGTYPE Operation against a key",
+        "EXECABORT Transaction discarded", "NOAUTH Authentication required", "NOPERM no", "WRONGPASS invalid", "", "ERR", "unknown command 'a\r\n+b'", "line\nfeed\rcr é"];
+    for m in msgs {
+        let bytes = redis_sim::production::verif_hooks::encode_error_reply(m);
+        cx.out.op(format!("EE {}", hex(m.as_bytes())), hex(&bytes));
+        cx.out.case(&format!("EE|{}", m), true);
+        for codec in [1u8, 2u8] {
+            if let Some(o) = check_decode(cx, codec, &bytes, "encoded-error") {
+                let one_error_frame = o.kind == Kind::Ok && o.consumed == bytes.len() && matches!(o.val, Some(V::E(_)));
+                if !one_error_frame {
+                    cx.out.violation("C15:roundtrip:conn-encoder:error-reply", "encode_error_into does not write exactly one error frame", json!({"message": m, "encoded": hex(&bytes), "decoded": o.line()}));
+                }
+            }
+        }
+    }
+}
+#[cfg(not(verif_h1c))]
+fn error_encoder(cx: &mut Ctx) {
+    cx.out.count("hook-h1c-absent");
 }
 
 // ---------------------------------------------------------------- generators
@@ -969,6 +1061,19 @@ fn all_small_values() -> Vec<V> {
     for a in atoms.iter().take(8) {
         all.push(V::A(vec![V::A(vec![V::A(vec![a.clone(), V::Z])]), V::N]));
     }
+    // the null array, the null bulk, empty arrays / bulks, a negative integer, lines with CR / LF —
+    // at every nesting depth 1..6, first / last / only element
+    for leaf in [V::Z, V::N, V::A(vec![]), V::B(vec![]), V::I(-42), V::E(b"e\r\nx".to_vec()), V::S(b"s\nx".to_vec())] {
+        let mut v = leaf.clone();
+        for d in 0..6 {
+            v = match d % 3 {
+                0 => V::A(vec![v]),
+                1 => V::A(vec![V::I(d as i64), v]),
+                _ => V::A(vec![v, V::B(b"tail".to_vec())]),
+            };
+            all.push(v.clone());
+        }
+    }
     all
 }
 
@@ -1094,6 +1199,44 @@ fn encoder3(cx: &mut Ctx) {
     if n != cmds.len() || off != bytes.len() {
         cx.out.violation("C15:roundtrip:other:enc3", "the replies of a connection do not decode into one value per command", json!({"commands": cmds.len(), "replies": n, "undecoded": bytes.len() - off, "written": hex(&bytes)}));
     }
+    // end to end: the values the server can be made to emit that only the connection encoder sees —
+    // the null array (aborted EXEC, ACL GETUSER of a missing user), nested arrays with nils (EVAL,
+    // MGET), an error inside an EXEC array.  Each reply must decode to the EXPECTED value.
+    let e2e: Vec<(Vec<&[u8]>, Option<V>, &str)> = vec![
+        (vec![b"SET", b"wk", b"v"], Some(V::S(b"OK".to_vec())), "set"),
+        (vec![b"WATCH", b"wk"], Some(V::S(b"OK".to_vec())), "watch"),
+        (vec![b"SET", b"wk", b"changed"], Some(V::S(b"OK".to_vec())), "set"),
+        (vec![b"MULTI"], Some(V::S(b"OK".to_vec())), "multi"),
+        (vec![b"PING"], Some(V::S(b"QUEUED".to_vec())), "queued"),
+        (vec![b"EXEC"], Some(V::Z), "aborted-exec"),
+        (vec![b"ACL", b"GETUSER", b"no-such-user"], None, "acl-getuser-missing"),
+        (vec![b"MGET", b"wk", b"missing", b"wk"], Some(V::A(vec![V::B(b"changed".to_vec()), V::N, V::B(b"changed".to_vec())])), "mget-with-nil"),
+        (vec![b"EVAL", b"return {1,{2,'x',{3,{}}},false,'s'}", b"0"], Some(V::A(vec![V::I(1), V::A(vec![V::I(2), V::B(b"x".to_vec()), V::A(vec![V::I(3), V::A(vec![])])]), V::N, V::B(b"s".to_vec())])), "eval-nested"),
+        (vec![b"MULTI"], Some(V::S(b"OK".to_vec())), "multi"),
+        (vec![b"INCR", b"wk"], Some(V::S(b"QUEUED".to_vec())), "queued"),
+        (vec![b"GET", b"missing"], Some(V::S(b"QUEUED".to_vec())), "queued"),
+        (vec![b"EXEC"], None, "exec-with-error-inside"),
+    ];
+    let segs: Vec<Vec<u8>> = e2e.iter().map(|c| frame(&c.0)).collect();
+    let r = runner.run(&Cfg::default_like(), &segs);
+    let (vals, rest) = crate::c04::decode_replies(&r.written);
+    cx.out.count_n("encoder3-e2e-replies", vals.len() as u64);
+    if vals.len() != e2e.len() || rest != 0 {
+        cx.out.violation("C15:roundtrip:conn-encoder:e2e:reply-count", "the end-to-end replies do not decode into one value per command", json!({"commands": e2e.len(), "replies": vals.len(), "written": hex(&r.written)}));
+    }
+    for (i, v) in vals.iter().enumerate().take(e2e.len()) {
+        let (cmd, want, name) = &e2e[i];
+        let ok = match (want, *name) {
+            (Some(w), _) => v == w,
+            (None, "exec-with-error-inside") => matches!(v, V::A(a) if a.len() == 2 && matches!(a[0], V::E(_)) && a[1] == V::N),
+            (None, "acl-getuser-missing") => *v == V::Z || matches!(v, V::A(_)),
+            _ => true,
+        };
+        if !ok {
+            cx.out.violation(&format!("C15:roundtrip:conn-encoder:e2e:{}", name), "a reply of the production connection does not decode to the value the server emitted",
+                json!({"command": cmd.iter().map(|a| String::from_utf8_lossy(a).to_string()).collect::<Vec<_>>(), "decoded": v.show(), "expected": want.as_ref().map(|w| w.show()), "written": hex(&r.written)}));
+        }
+    }
     // a reply that embeds client bytes containing CR LF (unknown command name)
     let inj = frame(&[b"FOO\r\n+INJECTED"]);
     let r = runner.run(&Cfg::default_like(), &[inj.clone()]);
@@ -1116,6 +1259,7 @@ fn run_inner(a: &Args) {
     cr_patterns(&mut cx);
 
     encoder3(&mut cx);
+    error_encoder(&mut cx);
     // round trips of all small values
     for v in all_small_values() {
         check_roundtrip(&mut cx, &v, "all-small");
